@@ -155,6 +155,18 @@ func DecodeMessage(data []byte) (Message, error) {
 	case float64:
 		// coerce the id type to int64 if it is float64, the spec does not allow fractional parts
 		id = Int64ID(int64(v))
+		if v >= 1<<53 || v <= -(1<<53) {
+			// float64 cannot represent every integer of this magnitude: decode the
+			// id again, exactly, so that an int64 id survives the round trip
+			var exact struct {
+				ID json.Number `json:"id"`
+			}
+			if json.Unmarshal(data, &exact) == nil {
+				if i, err := exact.ID.Int64(); err == nil {
+					id = Int64ID(i)
+				}
+			}
+		}
 	case int64:
 		id = Int64ID(v)
 	case string:
